@@ -52,6 +52,10 @@ m=mesh("triangle"); V=space(m,"P",1); v=TestFunction(V); f=Coefficient(V)
 objs=[inner(sqrt(f)+ln(f+3.0)+sin(f)*cosh(f)+f**2.5, v)*dx]'''),
 ]
 COMPLEX_ONLY += [
+    # multi-argument math functions with a complex operand next to a real-typed one (float exponent, real base)
+    corpus._c("c09_power_mixed_operand_types", '''
+m=mesh("triangle"); V=space(m,"P",1); v=TestFunction(V); f=Coefficient(V); g=Coefficient(V)
+objs=[inner((f+2.5)**1.5 + g/(f+2.5)**0.5, v)*dx(degree=3), inner(f**0.5*conj(g) + (g*g+1.5)**2.5, v)*ds(degree=2)]'''),
     # complex literals in every syntactic position (divisor, numerator, exponent base, argument), purely imaginary ones included
     corpus._c("c09_imaginary_literal_positions", '''
 m=mesh("triangle"); V=space(m,"P",1); v=TestFunction(V); f=Coefficient(V); g=Coefficient(V); k=Constant(m)
